@@ -250,5 +250,38 @@ func runC03(t *core.Tape, st *core.Stats) *core.Violation {
 
 	st.State(core.HashString(fmt.Sprint(facts.PrimaryObjs, facts.Included, facts.HasErrors)))
 
+	// The same resources are served again under another path prefix (a second mount
+	// point, another API version): every link is made of *that* document's prefix.
+	if t.Bool(1, 3) {
+		other := []string{"https://other.example/v2", "/x", "", "/api/v9/"}[t.Draw(4)]
+		if other == ds.PrePath {
+			other = "/y"
+		}
+
+		var again []byte
+
+		doc.Errors = nil
+		if len(ds.Errors) > 0 {
+			doc.Errors = append([]jsonapi.Error(nil), ds.Errors...)
+		}
+
+		doc.PrePath = other
+
+		mo3 := core.DrawMapOrder(t)
+		if p := core.Call(func() { mo3.With(func() { again, err = jsonapi.MarshalDocument(doc, u) }) }); p != nil {
+			return viol(P, "no-panic", p.Func, "marshal-other-prefix:"+p.Class, "MarshalDocument under another prefix panicked: %s", p.Value)
+		}
+
+		st.Inc("probe:same-resources-under-another-prefix")
+
+		if err == nil {
+			t.Logf("marshal under prefix %q -> %s", other, again)
+
+			if _, clause, msg := model.ValidateDocument(again, other, primaryRes); clause != "" {
+				return viol(P, clause, "MarshalDocument", ds.Kind+":second-prefix", "the same resources marshaled under prefix %q (after %q): %s\n    output: %s", other, ds.PrePath, msg, again)
+			}
+		}
+	}
+
 	return nil
 }
